@@ -20,8 +20,12 @@ package parentpb
 //@   ensures allChildren(res) && distinctNames(res) && (len(res) > 0 ==> fresh(res))
 //@   modifies nothing
 //@
+//@ property C15 C07
 //@ func (*ModelServer).ListChildren(ctx, request) (resp, err)
 //@   requires recv != nil && recv.model != nil && request != nil
+//@   // C07: listing is a read: the page's elements are the stored children themselves (the model hands them out), so the
+//@   // read mask has to be applied to copies: no message that existed before the call is written
+//@   preserves msgs
 //@   ensures [negative] old(request.PageSize) < 0 ==> err != nil
 //@   ensures [total] err == nil && len(all) <= 2147483647 ==> resp.TotalSize == len(all)
 //@   ensures [page] err == nil ==> 0 <= nextIndex && nextIndex <= upperBound && upperBound <= len(all) && resp.Children == all[nextIndex:upperBound]
